@@ -306,7 +306,12 @@ func evaluate(d *Driver, c Case) failure {
 
 func (f failure) failing() string {
 	if f.oracle != "" {
-		return "counterexample"
+		// the signature keeps a shrink from wandering off to a different failure
+		w := strings.Fields(f.oracle)
+		if len(w) > 3 {
+			w = w[:3]
+		}
+		return "counterexample:" + strings.Join(w, " ")
 	}
 	if f.model != f.impl {
 		return "correspondence"
@@ -459,6 +464,7 @@ func runStream(p *Property, st *Stream, d *Driver, tier string, seed uint64, rep
 		if kind == "" {
 			continue
 		}
+		kind = strings.SplitN(kind, ":", 2)[0]
 		if f.oracle != "" {
 			sr.OracleFails++
 		}
